@@ -9,6 +9,9 @@ RULE = ("pairs of closed polygonal curves (int/Fraction/float; crossing, nested,
         "edges, identical, reversed) x all four flag combinations x both operand orders, plus a curved stream "
         "(circle vs square / circle vs circle: soundness and count of transversal crossings only); non-trivial = "
         "at least one interior crossing; distinct = SHA-1 of the case")
+RULE_EXTRA = ("; a parabola arc against polygons in general position, int / Fraction / float control points: every closed-form "
+              "crossing reported once at the right parameters (1e-6), nothing else, even count, swap symmetry")
+RULE = RULE + RULE_EXTRA
 PROOF_STATUS = ("Props/C14.v: range, soundness, completeness for non-parallel segments, None = equal segments, swap, "
                 "flags, totality -- all polygonal curves")
 
@@ -55,13 +58,20 @@ def cases(ctx):
         a, b = _pair(rng, "gp")
         v = (F(rng.randint(-15, 15)), F(rng.randint(-15, 15)))
         yield {"a": G.verts_to_jordan(a), "b": G.verts_to_jordan(b), "num": "frac", "mode": "moved", "mv": v, "warm": i % 3}
+    # a parabola arc (one quadratic segment) against polygons, crossings known in closed form (mostly at irrational
+    # parameters); exact (int/Fraction) and float control points
+    from .. import curved as C
+    for i in range(ctx.n(10, 200)):
+        c = C.cap_case(rng)
+        if c:
+            yield dict(c, num=["frac", "float", "int"][i % 3])
     for i in range(ctx.n(3, 40)):
         yield {"curved": True, "r": rng.choice([1.0, 1.5, 0.8]), "c": [rng.uniform(-0.3, 0.3), rng.uniform(-0.3, 0.3)],
                "side": rng.choice([1.7, 2.2, 1.3]), "nd": rng.choice([4, 8, 16])}
 
 
 def nontrivial(case):
-    if case.get("curved"):
+    if case.get("curved") or "cap" in case:
         return True
     return G.count_crossings([case["a"]], [case["b"]]) > 0
 
@@ -86,8 +96,55 @@ def _exact_rows(ja, jb):
     return rows
 
 
+def _cap(ctx, case):
+    from .. import curved as C
+    fails = []
+    a, h = case["cap"]
+    num = case["num"]
+    conv = {"frac": F, "int": (lambda x: int(x) if F(x).denominator == 1 else F(x)), "float": float}[num]
+    JA = I.JordanCurve.from_ctrlpoints([[(conv(-a), conv(0)), (conv(a), conv(0))], [(conv(a), conv(0)), (conv(0), conv(2 * h)), (conv(-a), conv(0))]])
+    JB = I.JordanCurve.from_vertices([(conv(p[0]), conv(p[1])) for p in case["poly"]])
+    ctx.count("cap:" + num)
+    try:
+        with U.time_limit(120):
+            ri = I.outcome(lambda: (JA.intersection(JB), JB.intersection(JA)))
+    except U.Timeout:
+        return [Fail(kind="O", what="curved intersection does not return (120 s)")]
+    if ri[0] != "ok":
+        return [Fail(kind="O", what="curved intersection raised", impl=ri)]
+    rows, swapped = ri[1]
+    vs = [(float(p[0]), float(p[1])) for p in case["poly"]]
+    want = []                                   # (segment of A, edge of B, parameter on A, parameter on B)
+    for k in range(len(vs)):
+        for s_, kind, t in C._crossings(float(a), float(h), vs[k], vs[(k + 1) % len(vs)]):
+            want.append((0 if kind == "base" else 1, k, t, s_))
+    got = [r for r in rows if r[2] is not None]
+    for (ia, ib, u, v) in got:
+        p, q = JA.segments[ia](u), JB.segments[ib](v)
+        if abs(float(p[0]) - float(q[0])) > 1e-6 or abs(float(p[1]) - float(q[1])) > 1e-6:
+            fails.append(Fail(kind="O", what="reported pair is not a common point", row=repr((ia, ib, u, v))))
+    def matches(w, r):
+        return w[0] == r[0] and w[1] == r[1] and abs(w[2] - float(r[2])) < 1e-6 and abs(w[3] - float(r[3])) < 1e-6
+    missing = [w for w in want if not any(matches(w, r) for r in got)]
+    extra = [r for r in got if not any(matches(w, r) for w in want)]
+    if missing:
+        fails.append(Fail(kind="O", what="%d of %d crossings of the parabola arc with the polygon are not reported" % (len(missing), len(want)),
+                          expected=[list(w) for w in missing[:3]]))
+    if extra:
+        fails.append(Fail(kind="O", what="reported crossings that do not exist", impl=[repr(r) for r in extra[:3]]))
+    if len(got) % 2:
+        fails.append(Fail(kind="O", what="odd number of crossings between two closed curves in general position", impl=len(got)))
+    sw = sorted((r[1], r[0], float(r[3]), float(r[2])) for r in swapped if r[2] is not None)
+    me = sorted((r[0], r[1], float(r[2]), float(r[3])) for r in got)
+    if len(sw) != len(me) or any(a_[:2] != b_[:2] or abs(a_[2] - b_[2]) > 1e-6 or abs(a_[3] - b_[3]) > 1e-6 for a_, b_ in zip(sw, me)):
+        fails.append(Fail(kind="O", what="B & A is not the swap of A & B"))
+    return fails
+
+
 def check(ctx, case):
     fails = []
+    if "cap" in case:
+        return _cap(ctx, case)
     if case.get("curved"):
         C = I.Primitive.circle(case["r"], tuple(case["c"]), case["nd"])
         S = I.Primitive.square(case["side"])
